@@ -128,7 +128,16 @@ def main(pid, tier, seed):
     def add(pcfg, hist, exact, g, m, ev2=None, bad=()):
         nonlocal tid
         tid += 1
-        p, i = ptq.to_traces(tid, pcfg, hist, mode, exact=exact, int_grammar=g, ev2=ev2, bad_groups=bad)
+        try:
+            p, i = ptq.to_traces(tid, pcfg, hist, mode, exact=exact, int_grammar=g, ev2=ev2, bad_groups=bad)
+        except (KeyError, ZeroDivisionError, IndexError) as ex:
+            # the history cannot be expressed over the grammar's own grid of pre-terminals: the grammar object no longer has the
+            # base structures it was loaded with (or emitted something outside them) - the stream is not a function of the ruleset
+            tid -= 1
+            if len(core.PENDING_RAISES) < 10:
+                core.PENDING_RAISES.append({'error': repr(ex), 'clause': pid + '_stream_is_a_function_of_the_ruleset', 'via': 'recorded history of the real queue',
+                                            'emitted': sum(len(s_['ev']) for s_ in hist.get('sessions', [])), 'meta': core.short(m, 200)})
+            return {'ev2': None, 'tid': -1}
         ptraces.append(p)
         if i is not None:
             itraces.append(i)
@@ -178,6 +187,14 @@ def main(pid, tier, seed):
             m = {'kind': 'float_ruleset', 'ruleset': desc, 'flags': flags}
             if pid in ('C01', 'C02'):
                 hist = ptq.run_history(pcfg, [], with_queue=False)
+                if pid == 'C01' and fi % 5 == 0:
+                    again = ptq.run_history(pcfg, [], with_queue=False)
+                    a_ = [(tuple(map(tuple, it['pt'])), it['prob']) for it, _ in hist['sessions'][0]['ev']]
+                    b_ = [(tuple(map(tuple, it['pt'])), it['prob']) for it, _ in again['sessions'][0]['ev']]
+                    if a_ != b_ and len(core.PENDING_RAISES) < 10:
+                        core.PENDING_RAISES.append({'error': 'a second run on the same loaded grammar emitted %d pre-terminals, the first %d' % (len(b_), len(a_)),
+                                                    'clause': 'C01_deterministic_function_of_ruleset_and_flags', 'via': 'two queues on one grammar object',
+                                                    'flags': flags})
                 bad = set(ptq.file_disagreements(d, pcfg)) if pid == 'C01' and not flags.get('skip_case') else set()
                 if pid == 'C01':
                     bad |= ptq.base_disagreements(d, pcfg, flags.get('folder', 'Grammar'), flags.get('skip_brute', False))
@@ -331,12 +348,18 @@ def main(pid, tier, seed):
             pcfg = ptq.load_pcfg(default, save_file=os.path.join(work, 'default.sav'))
             hist = ptq.run_history(pcfg, [], with_queue=False, max_pops=400 if tier == 'quick' else 5000)
             tid += 1
-            p, _ = ptq.to_traces(tid, pcfg, hist, 'C01', exact=False)
-            p['sizes'] = [[1]]
-            p['mode'] = 'C01_prefix'
-            ptraces.append(p)
-            meta[tid] = {'kind': 'shipped Rules/Default prefix', 'pops': len(p['sess'][0]['ev'])}
-            extra_prefix = len(p['sess'][0]['ev'])
+            try:
+                p, _ = ptq.to_traces(tid, pcfg, hist, 'C01', exact=False)
+            except (KeyError, IndexError) as ex:
+                p = None
+                tid -= 1
+                core.PENDING_RAISES.append({'error': repr(ex), 'clause': 'C01_stream_is_a_function_of_the_ruleset', 'via': 'shipped ruleset prefix'})
+            if p is not None:
+                p['sizes'] = [[1]]
+                p['mode'] = 'C01_prefix'
+                ptraces.append(p)
+                meta[tid] = {'kind': 'shipped Rules/Default prefix', 'pops': len(p['sess'][0]['ev'])}
+                extra_prefix = len(p['sess'][0]['ev'])
 
     # ---- two-run determinism (C01) ----
     if det_jobs:
